@@ -269,7 +269,9 @@ fn region_ok(rows: &[Row], n: usize, mode: &EquivMode) -> Option<QVec> {
     match &mode.ball {
         None => lp::full_dim(rows, n),
         Some(d) => {
-            if lp::has_ball(rows, n, d) {
+            // float regime: only regions with a ball inside the box |x| <= 1e6 are compared (almost
+            // parallel rounded hyperplanes can enclose regions that exist only at ~1e16)
+            if lp::has_ball_boxed(rows, n, d) {
                 lp::full_dim(rows, n)
             } else {
                 None
@@ -738,4 +740,36 @@ pub fn compare_tree_opts<const K: usize>(
         }
     }
     Ok(out)
+}
+
+impl Ref {
+    /// smallest |slack| over all non-degenerate guard rows met on the path of x (None if no rows)
+    pub fn min_abs_slack(&self, x: &[Q]) -> Option<Q> {
+        let mut cur = self;
+        let mut best: Option<Q> = None;
+        loop {
+            match cur {
+                Ref::Leaf { .. } => return best,
+                Ref::Split(parts) => {
+                    for (g, _) in parts {
+                        for r in g {
+                            if r.is_zero_row() {
+                                continue;
+                            }
+                            // normalise by the 1-norm so that the value is a distance-like quantity
+                            let s = (&r.slack(x).abs()) / &crate::exact::norm1(&r.a);
+                            best = Some(match best {
+                                None => s,
+                                Some(b) => Q::min(&b, &s),
+                            });
+                        }
+                    }
+                    match parts.iter().find(|(g, _)| g.iter().all(|r| r.holds(x))) {
+                        Some((_, sub)) => cur = sub,
+                        None => return best,
+                    }
+                }
+            }
+        }
+    }
 }
